@@ -38,6 +38,7 @@ var props = map[string]*propInfo{
 	"C05": {},
 	"C06": {},
 	"C07": {},
+	"C09": {},
 }
 
 func loadInfo(bin, id string, p *propInfo) error {
